@@ -8,7 +8,10 @@ package main
 //
 //   - statement level: 2..6 tasks call the real gzip.NewGzipHandler around a
 //     scripted inner handler, writing into recording response writers that
-//     behave like net/http's (headers are fixed at the first WriteHeader/Write).
+//     behave like net/http's (informational 1xx statuses leave the response open,
+//     headers are fixed at the first other status or Write). A slow client makes
+//     every write that reaches the recording writer a scheduling point
+//     (simhook.Pause), also the ones compress/gzip issues on its own from Close.
 //     The driver interleaves the tasks at every statement of proxy/gzip; the
 //     instrumented sync.Pool is a LIFO, so a gzip writer that is used after it
 //     was returned corrupts another task's response deterministically.
@@ -63,8 +66,12 @@ type c17Spec struct {
 
 	Status   int        `json:"status"`
 	Explicit bool       `json:"explicit_write_header"`
-	CT       *string    `json:"content_type"`     // nil: absent
-	CE       string     `json:"content_encoding"` // "": absent
+	Info     []int      `json:"informational_first,omitempty"`        // 1xx status calls that precede the final status
+	InfoHdr  string     `json:"informational_headers,omitempty"`      // proxy: own Link header, header map cleared afterwards (as httputil.ReverseProxy does) | kept: the final headers are already set | own: as proxy, plus a Content-Type of its own
+	InfoCT   string     `json:"informational_content_type,omitempty"` // InfoHdr own
+	Slow     bool       `json:"slow_client,omitempty"`                // statement level: every write that reaches the client parks the handler first
+	CT       *string    `json:"content_type"`                         // nil: absent
+	CE       string     `json:"content_encoding"`                     // "": absent
 	HasCL    bool       `json:"content_length_set"`
 	Extra    []c17HdrOp `json:"extra_headers,omitempty"`
 	BodyKind string     `json:"body_kind"`
@@ -80,6 +87,7 @@ type c17Scenario struct {
 	Tasks   [][]c17Spec `json:"tasks"` // statement: one list per task; h2: one list per client connection
 	Shared  bool        `json:"shared_handler,omitempty"`
 	Adopt   bool        `json:"handler_goroutines_are_tasks,omitempty"` // h2 only
+	Slow    bool        `json:"slow_clients,omitempty"`                 // h2 with tasks: every write of a handler into its response parks the handler first
 	Exchngs int         `json:"exchanges"`
 }
 
@@ -224,6 +232,32 @@ func c17GenSpec(g *simcore.Tape, id string, h2 bool, maxBody int, re *regexp.Reg
 	}
 	sp.Status = simcore.Pick(g, c17Statuses)
 	sp.Explicit = sp.Status != 200 || h2 || g.Bool()
+	// informational responses (103 Early Hints, 102 Processing, 100 Continue) before the final status
+	switch g.Intn(6) {
+	case 4:
+		sp.Info = []int{103}
+	case 5:
+		n := g.Range(1, 2)
+		for i := 0; i < n; i++ {
+			code := 103 // the raw upstream of the H2 environment sends 103 only
+			if !h2 {
+				code = simcore.Pick(g, []int{103, 102, 100})
+			}
+			sp.Info = append(sp.Info, code)
+		}
+	}
+	if len(sp.Info) > 0 {
+		sp.InfoHdr = "proxy"
+		if !h2 {
+			sp.InfoHdr = simcore.Pick(g, []string{"proxy", "kept", "proxy", "own"})
+			if sp.InfoHdr == "own" {
+				sp.InfoCT = simcore.Pick(g, c17Types)
+			}
+		}
+	}
+	if !h2 {
+		sp.Slow = g.Intn(3) == 2
+	}
 	switch k := g.Intn(10); {
 	case k == 9: // absent
 	default:
@@ -281,8 +315,17 @@ func c17GenSpec(g *simcore.Tape, id string, h2 bool, maxBody int, re *regexp.Reg
 		// so such replies always declare their length.
 		sp.HasCL = true
 	}
+	if h2 && len(sp.Body) > c17MaxChunkedBody {
+		// httputil.ReverseProxy copies a body of unknown length under its flush mutex: when the simulated
+		// network window (64 KiB) fills up, the blocked Write holds that real mutex, the flush timer goroutine
+		// waits for it non-durably and the bubble never becomes quiescent. Larger replies declare their length.
+		sp.HasCL = true
+	}
 	return sp
 }
+
+// c17MaxChunkedBody is the largest upstream reply of unknown length in H2 runs (below the simnet window).
+const c17MaxChunkedBody = 48000
 
 func c17Gen(g *simcore.Tape, thorough bool, force string) (*c17Scenario, *regexp.Regexp) {
 	sc := &c17Scenario{Mode: "statement"}
@@ -303,6 +346,7 @@ func c17Gen(g *simcore.Tape, thorough bool, force string) (*c17Scenario, *regexp
 			maxBody = 200000
 		}
 		sc.Adopt = g.Intn(3) != 2
+		sc.Slow = sc.Adopt && g.Intn(3) == 2
 	} else {
 		ntasks = g.Range(2, 4)
 		if thorough {
@@ -365,6 +409,7 @@ type c17Got struct {
 	Header  http.Header
 	Body    []byte
 	BodyErr error
+	Interim []int // informational statuses delivered before the final one
 }
 
 func c17Gunzip(b []byte) ([]byte, error) {
@@ -416,6 +461,14 @@ func c17Judge(r *simcore.Run, re *regexp.Regexp, sp *c17Spec, got *c17Got, h2 bo
 	}
 	if got.Status != wantStatus {
 		r.Fail("status", "changed", "%s: produced status %d, delivered %d", what, wantStatus, got.Status)
+	}
+	if len(sp.Info) > 0 {
+		// Only the final status is demanded (narrow reading of "the status code is preserved"); what became of
+		// the informational responses themselves is counted, not judged.
+		r.Probe("informational_responses_first")
+		if fmt.Sprint(got.Interim) != fmt.Sprint(sp.Info) {
+			r.Probe("informational_responses_not_delivered_as_produced")
+		}
 	}
 	sent := sp.sentHeader()
 	bodiless := sp.Method == "HEAD" || wantStatus == 204 || wantStatus == 304
@@ -525,6 +578,9 @@ func c17Judge(r *simcore.Run, re *regexp.Regexp, sp *c17Spec, got *c17Got, h2 bo
 		r.Probe("passed_through")
 		if eligible {
 			r.Probe("eligible_not_compressed")
+			if len(sp.Info) > 0 {
+				r.Probe("eligible_not_compressed_after_informational")
+			}
 		}
 	}
 	return compressed
@@ -563,13 +619,19 @@ func c17HeaderDiff(sent, got http.Header, skip map[string]bool) string {
 
 // ---------------------------------------------------------------- statement level
 
-// c17Rec stands in for net/http's response: the header map is frozen at the first WriteHeader/Write.
+// c17Rec stands in for net/http's response: an informational status (1xx other than 101) goes out at once with the
+// headers of that moment and leaves the response open; the header map is frozen at the first other status or Write.
+// With slow set the client is slow: every write that reaches the network (informational responses, body writes)
+// is a scheduling point at which the handler is parked until the driver releases it - also when the write is
+// issued from inside compress/gzip, which has no yield sites of its own.
 type c17Rec struct {
 	r        *simcore.Run
 	hdr      http.Header
 	snap     http.Header
 	status   int
+	interim  []int
 	body     bytes.Buffer
+	slow     bool
 	finished bool
 }
 
@@ -584,10 +646,20 @@ func (w *c17Rec) WriteHeader(code int) {
 	if w.late() || w.snap != nil {
 		return
 	}
+	if code >= 100 && code <= 199 && code != http.StatusSwitchingProtocols {
+		if w.slow {
+			simhook.Pause()
+		}
+		w.interim = append(w.interim, code)
+		return
+	}
 	w.snap = w.hdr.Clone()
 	w.status = code
 }
 func (w *c17Rec) Write(b []byte) (int, error) {
+	if w.slow {
+		simhook.Pause()
+	}
 	if w.late() {
 		return 0, http.ErrHandlerTimeout
 	}
@@ -601,7 +673,7 @@ func (w *c17Rec) result() *c17Got {
 		w.snap = w.hdr.Clone()
 		w.status = 200
 	}
-	return &c17Got{Status: w.status, Header: w.snap, Body: w.body.Bytes()}
+	return &c17Got{Status: w.status, Header: w.snap, Body: w.body.Bytes(), Interim: w.interim}
 }
 
 // c17Inner plays the scripted responses.
@@ -609,6 +681,18 @@ func c17Inner(specs map[string]*c17Spec) http.Handler {
 	return http.HandlerFunc(func(w http.ResponseWriter, req *http.Request) {
 		sp := specs[req.Header.Get("X-Sim-Id")]
 		h := w.Header()
+		if sp.InfoHdr != "kept" {
+			// like httputil.ReverseProxy: the informational response carries header fields of its own and the
+			// header map is emptied before the final header is assembled
+			for i, code := range sp.Info {
+				h.Set("Link", fmt.Sprintf("</style%d.css>; rel=preload", i))
+				if sp.InfoHdr == "own" {
+					h.Set("Content-Type", sp.InfoCT)
+				}
+				w.WriteHeader(code)
+				clear(h)
+			}
+		}
 		if sp.CT != nil {
 			h.Set("Content-Type", *sp.CT)
 		}
@@ -623,6 +707,11 @@ func c17Inner(specs map[string]*c17Spec) http.Handler {
 				h.Set(op.K, op.V)
 			} else {
 				h.Add(op.K, op.V)
+			}
+		}
+		if sp.InfoHdr == "kept" {
+			for _, code := range sp.Info {
+				w.WriteHeader(code)
 			}
 		}
 		if sp.Explicit {
@@ -675,7 +764,7 @@ func runC17Statement(r *simcore.Run, sc *c17Scenario, re *regexp.Regexp) {
 				for _, h := range sp.ReqHeaders {
 					req.Header.Add(h.K, h.V)
 				}
-				rec := &c17Rec{r: r, hdr: http.Header{}}
+				rec := &c17Rec{r: r, hdr: http.Header{}, slow: sp.Slow}
 				recs[t] = append(recs[t], rec)
 				h := shared
 				if !sc.Shared {
@@ -712,7 +801,7 @@ func runC17Statement(r *simcore.Run, sc *c17Scenario, re *regexp.Regexp) {
 			if comp {
 				ncomp++
 			}
-			r.Tracef("req%d.%d %s -> status=%d ce=%q len=%d compressed=%v", t, k, sp.ID, got.Status, got.Header["Content-Encoding"], len(got.Body), comp)
+			r.Tracef("req%d.%d %s -> interim=%v status=%d ce=%q len=%d compressed=%v", t, k, sp.ID, got.Interim, got.Status, got.Header["Content-Encoding"], len(got.Body), comp)
 		}
 	}
 	if overlap {
@@ -726,6 +815,21 @@ func runC17Statement(r *simcore.Run, sc *c17Scenario, re *regexp.Regexp) {
 }
 
 // ---------------------------------------------------------------- event level (H2)
+
+// c17SlowWriter makes every body write of a handler into net/http's response a scheduling point (a client that is
+// slow to take the bytes): the handler task is parked before the write, also when compress/gzip issues it.
+type c17SlowWriter struct{ http.ResponseWriter }
+
+func (w *c17SlowWriter) Write(b []byte) (int, error) {
+	simhook.Pause()
+	return w.ResponseWriter.Write(b)
+}
+func (w *c17SlowWriter) Unwrap() http.ResponseWriter { return w.ResponseWriter }
+func (w *c17SlowWriter) Flush() {
+	if f, ok := w.ResponseWriter.(http.Flusher); ok {
+		f.Flush()
+	}
+}
 
 func runC17H2(r *simcore.Run, sc *c17Scenario, re *regexp.Regexp) {
 	cfg := &config.Config{}
@@ -743,6 +847,9 @@ func runC17H2(r *simcore.Run, sc *c17Scenario, re *regexp.Regexp) {
 	if sc.Adopt {
 		e.d.Sim.Activate("gzip")
 		r.Probe("h2_tasked")
+		if sc.Slow {
+			r.Probe("h2_slow_clients")
+		}
 		e.d.Invariant = func() {
 			if n := e.d.Sim.InFunc("gzip", ""); n >= 1 {
 				r.State(strings.Join(e.d.Sim.TaskStates(), "|"))
@@ -763,6 +870,9 @@ func runC17H2(r *simcore.Run, sc *c17Scenario, re *regexp.Regexp) {
 			name := fmt.Sprintf("h:%s#%d", req.RemoteAddr, perConn[req.RemoteAddr])
 			mu.Unlock()
 			defer simhook.Adopt(name)()
+			if sc.Slow {
+				w = &c17SlowWriter{w}
+			}
 			h.ServeHTTP(w, req)
 		})
 	}
@@ -783,7 +893,7 @@ func runC17H2(r *simcore.Run, sc *c17Scenario, re *regexp.Regexp) {
 				rq.Body = bytes.Repeat([]byte("b"), sp.ReqBody)
 				rq.BodyLen = len(rq.Body)
 			}
-			rs := h2Resp{Status: sp.Status, Body: sp.Body, BodyLen: len(sp.Body), Chunked: !sp.HasCL, Chunks: sp.Chunks}
+			rs := h2Resp{Status: sp.Status, Body: sp.Body, BodyLen: len(sp.Body), Chunked: !sp.HasCL, Chunks: sp.Chunks, Early: len(sp.Info)}
 			if sp.CT != nil {
 				rs.Headers = append(rs.Headers, h2Header{"Content-Type", *sp.CT})
 			}
@@ -817,7 +927,7 @@ func runC17H2(r *simcore.Run, sc *c17Scenario, re *regexp.Regexp) {
 				r.Fail("response", "not-forwarded-once", "%s %s: the upstream received the request %d times", sp.Method, sp.ID, len(e.seen[sp.ID]))
 				continue
 			}
-			got := &c17Got{Err: res.Err, Status: res.Status, Header: res.Header, Body: res.Body, BodyErr: res.BodyErr}
+			got := &c17Got{Err: res.Err, Status: res.Status, Header: res.Header, Body: res.Body, BodyErr: res.BodyErr, Interim: res.Interim}
 			// the upstream's framing: a Content-Length header is what h2RenderResponse adds when the reply is not chunked
 			spec := *sp
 			spec.HasCL = false
